@@ -27,7 +27,29 @@ def gen_case(ctx: Ctx):
                 dz=rng.choice([0.5, 2.0, 7.25, -3.0, round(rng.uniform(0.1, 30), 3)]),
                 tilt=[round(rng.uniform(-mag, mag), 3), rng.choice([0.0, round(rng.uniform(-mag, mag), 3)])],
                 order=rng.choice([1, 1, 2]), wseed=rng.randint(0, 10 ** 6), precision=rng.choice(["float64", "float64", "float32"]),
-                kind=rng.choice(["shift", "shift", "axes", "planewave", "multislice"]))
+                kind=rng.choice(["shift", "shift", "axes", "planewave", "multislice", "mixed", "mixed", "api", "api"]),
+                base=rng.choice([[0.0, 0.0], [round(rng.uniform(-mag, mag), 3), round(rng.uniform(-mag, mag), 3)],
+                                 [round(rng.uniform(-mag, mag), 3), 0.0], [0.0, round(rng.uniform(-mag, mag), 3)]]),
+                axes=[rng.choice(["pair", "x", "y", "plain"]) for _ in range(rng.randint(1, 2))],
+                values=[[round(rng.uniform(-mag, mag), 3) for _ in range(4)] for _ in range(2)],
+                api=rng.choice(["x-dist+y-fixed", "x-fixed+y-dist", "pairs", "both-dist"]), builder=rng.choice(["probe", "planewave"]))
+
+
+def build_axes(case):
+    """ensemble axes of a `mixed` case: list of (axis metadata, per-member tilt or None)"""
+    from abtem.core.axes import AxisAlignedTiltAxis, OrdinalAxis, TiltAxis
+
+    axes = []
+    for kind, vals in zip(case["axes"], case["values"]):
+        if kind == "pair":
+            v = ((vals[0], vals[1]), (vals[2], vals[3]))
+            axes.append((TiltAxis(values=v), [tuple(t) for t in v]))
+        elif kind in ("x", "y"):
+            v = (vals[0], vals[1])
+            axes.append((AxisAlignedTiltAxis(values=v, direction=kind), [(t, 0.0) if kind == "x" else (0.0, t) for t in v]))
+        else:
+            axes.append((OrdinalAxis(values=(0, 1)), [None, None]))
+    return axes
 
 
 class C39(Property):
@@ -96,7 +118,36 @@ class C39(Property):
                     [base.format(fb(kx[i]), fb(ky[j])) + f"{fb(tx)},{fb(ty)}" for i, j in pix], [pp[i, j] for i, j in pix], tol * 3)
             ctx.count(f"corr:{prec}:order{case['order']}:ty={'zero' if ty == 0 else 'set'}")
             ctx.case(case)
-        for bad in ("tilt 1 2 3", "kernel x", "propagator 1 0 0 0 0 0 7", "q"):
+        # the way _calculate_array combines the scalar base tilt with tilt axes (and plain ensemble axes)
+        for _ in range(ctx.n(14, 120)):
+            case = gen_case(ctx)
+            case["kind"] = "mixed"
+            prec = case["precision"]
+            dt = np.float64 if prec == "float64" else np.float32
+            tol = 2e-8 if prec == "float64" else 6e-3
+            gpts, sampling, dz = tuple(case["gpts"]), tuple(case["sampling"]), case["dz"]
+            pix = pick_pixels(ctx, gpts, 12)
+            with precision(prec):
+                kx = np.fft.fftfreq(gpts[0], sampling[0]).astype(dt).astype(np.float64)
+                ky = np.fft.fftfreq(gpts[1], sampling[1]).astype(dt).astype(np.float64)
+                wl, ms = energy2wavelength(case["energy"]), max(sampling)
+                axes = build_axes(case)
+                shape = tuple(len(m) for _, m in axes)
+                w = make_waves(np.zeros(shape + gpts, dtype=np.complex128 if prec == "float64" else np.complex64), case["energy"], sampling,
+                               tuple(case["base"]), [a for a, _ in axes])
+                arr = np.asarray(FresnelPropagator._calculate_array(w, dz, order=case["order"]), dtype=np.complex128)
+                arr = np.broadcast_to(arr, shape + gpts)
+                reqs, impl = [], []
+                for idx in np.ndindex(*shape):
+                    ax = ";".join("_" if m[k] is None else f"{fb(m[k][0])},{fb(m[k][1])}" for (_, m), k in zip(axes, idx)) or "~"
+                    for i, j in pix:
+                        reqs.append(f"calcarray {case['order']} {fb(kx[i])} {fb(ky[j])} {fb(dz)} {fb(wl)} {fb(ms)} "
+                                    f"{fb(case['base'][0])} {fb(case['base'][1])} {ax}")
+                        impl.append(arr[idx + (i, j)])
+                add("FresnelPropagator._calculate_array (base tilt + ensemble axes)", case, reqs, impl, tol)
+            ctx.count(f"corr-mixed:base={'zero' if case['base'] == [0.0, 0.0] else 'set'}:axes={'+'.join(case['axes'])}")
+            ctx.case(case)
+        for bad in ("tilt 1 2 3", "kernel x", "propagator 1 0 0 0 0 0 7", "calcarray 1 0 0 0 0 0 0 0 1,2,3", "q"):
             add("driver rejects malformed", dict(line=bad), [bad], ["bad-op"], 0)
         outs = drv.query(lines)
         for name, case, start, n, impl, tol in checks:
@@ -127,7 +178,7 @@ class C39(Property):
             shift_px = np.array([dz * np.tan(tx / 1e3) / sampling[0], dz * np.tan(ty / 1e3) / sampling[1]])
 
             def prop(arr, tilt, axes=None):
-                w = make_waves(np.array(arr, dtype=cdt), case["energy"], sampling, tuple(tilt), axes)
+                w = make_waves(np.ascontiguousarray(np.array(arr, dtype=cdt)), case["energy"], sampling, tuple(tilt), axes)
                 return np.asarray(FresnelPropagator().propagate(w, thickness=dz, in_place=False, order=order).array, dtype=np.complex128)
 
             def rel(a, b):
@@ -157,6 +208,63 @@ class C39(Property):
                 dev = float(np.abs(np.abs(out) - 1).max())
                 if dev > (1e-9 if prec == "float64" else 1e-4):
                     ctx.violation("tilted-planewave-loses-unit-modulus-in-vacuum", case, dict(max_dev=dev))
+            elif case["kind"] == "mixed":
+                # pre-tilted waves (scalar base tilt) carrying tilt ensemble axes: every member must equal the untilted
+                # propagation shifted by dz·(tan base + Σ tan member tilts)
+                axes = build_axes(case)
+                shape = tuple(len(m) for _, m in axes)
+                out = prop(np.ascontiguousarray(np.broadcast_to(psi, shape + gpts)), tuple(case["base"]), [a for a, _ in axes])
+                plain = prop(psi, (0.0, 0.0))
+                worst, where = 0.0, None
+                for idx in np.ndindex(*shape):
+                    tans = np.array([np.tan(case["base"][0] / 1e3), np.tan(case["base"][1] / 1e3)])
+                    for (_, m), k in zip(axes, idx):
+                        if m[k] is not None:
+                            tans += np.tan(np.array(m[k]) / 1e3)
+                    exp = np.asarray(fft_shift(plain.astype(cdt), dz * tans / np.array(sampling)), dtype=np.complex128)
+                    e = rel(out[idx], exp)
+                    if e > worst:
+                        worst, where = e, list(idx)
+                if worst > tol * 3:
+                    kinds = "+".join(sorted(set(case["axes"])))
+                    ctx.violation(f"base-tilt-plus-tilt-axes-differs-from-total-shift:{'base-set' if case['base'] != [0.0, 0.0] else 'base-zero'}:{kinds}",
+                                  case, dict(rel_err=worst, member=where))
+            elif case["kind"] == "api":
+                # tilts through the public builders: a distribution on one axis with a fixed value on the other, N x 2 pairs, or
+                # distributions on both axes; every ensemble member must equal the scalar-tilt build propagated the same way
+                from abtem.distributions import from_values
+
+                v = case["values"]
+                if case["api"] == "x-dist+y-fixed":
+                    tilt, members = (from_values(v[0][:3]), v[1][0]), [((a, v[1][0]), (i,)) for i, a in enumerate(v[0][:3])]
+                elif case["api"] == "x-fixed+y-dist":
+                    tilt, members = (v[0][0], from_values(v[1][:2])), [((v[0][0], b), (i,)) for i, b in enumerate(v[1][:2])]
+                elif case["api"] == "pairs":
+                    pairs = np.array([[v[0][0], v[1][0]], [v[0][1], v[1][1]], [v[0][2], v[1][2]]])
+                    tilt, members = pairs, [((float(p[0]), float(p[1])), (i,)) for i, p in enumerate(pairs)]
+                else:
+                    tilt = (from_values(v[0][:2]), from_values(v[1][:2]))
+                    members = [((a, b), (i, j)) for i, a in enumerate(v[0][:2]) for j, b in enumerate(v[1][:2])]
+
+                def build(t):
+                    if case["builder"] == "probe":
+                        return abtem.Probe(semiangle_cutoff=25.0, gpts=gpts, sampling=sampling, energy=case["energy"], tilt=t).build(lazy=False)
+                    return abtem.PlaneWave(gpts=gpts, sampling=sampling, energy=case["energy"], tilt=t).build(lazy=False)
+
+                def go(w):
+                    if case["builder"] == "planewave":  # give the plane wave some structure so that a shift is visible
+                        w = w.copy()
+                        w._array = np.asarray(w.array) * psi
+                    return np.asarray(FresnelPropagator().propagate(w, thickness=dz, in_place=False, order=order).array, dtype=np.complex128)
+
+                ens = go(build(tilt))
+                worst, where = 0.0, None
+                for t, idx in members:
+                    e = rel(ens[idx], go(build(t)))
+                    if e > worst:
+                        worst, where = e, [list(t), list(idx)]
+                if worst > tol * 3:
+                    ctx.violation(f"ensemble-tilt-member-differs-from-scalar-tilt:{case['api']}", case, dict(rel_err=worst, member=where))
             else:  # full multislice through an empty potential: tilted == untilted then shifted by total thickness
                 from abtem.potentials.iam import PotentialArray
 
@@ -175,7 +283,7 @@ class C39(Property):
                 e = rel(out_t, np.asarray(fft_shift(out_0.astype(cdt), spx), dtype=np.complex128))
                 if e > tol * 3:
                     ctx.violation("tilted-multislice-through-vacuum-differs-from-shifted-untilted", case, dict(rel_err=e, shift_pixels=spx.tolist()))
-        ctx.count(f"{case['kind']}:{prec}:order{order}")
+        ctx.count(f"{case['kind']}:{prec}:order{order}" + (f":{case['api']}:{case['builder']}" if case["kind"] == "api" else ""))
 
     def conformance(self, ctx: Ctx):
         for _ in range(ctx.n(60, 800)):
